@@ -1,13 +1,776 @@
+// Harness for C39: (1) extracts the lock-acquisition order and the two step orders
+// from the current Go source (lockorder.go), (2) drives the real tsdb.Shard /
+// tsm1.Engine through *controlled schedules*: cache snapshots, full compactions,
+// range deletes and reads are started in goroutines and held at their lock
+// boundaries (the verifPoint call sites of the engine and the two-phase read of
+// verif_c39.go) while other operations run; (3) thorough tier: free-running
+// concurrent workloads as supporting evidence.
+//
+//	w <k> <t> <v>            write one integer point of series m,k=<k> field v
+//	snap-begin               start Engine.WriteSnapshot, hold it after Cache.Snapshot
+//	snap-replace             let it run to after FileStore.Replace (or to its end when the snapshot is empty)
+//	snap-clear               let it run to its end (Cache.ClearSnapshot, WAL removal)
+//	compact-begin            start a full compaction of all current files, hold it before FileStore.Replace
+//	compact-commit           let it finish
+//	del <k> <lo> <hi>        Shard.DeleteSeriesRange, start to end
+//	del-begin <k> <lo> <hi>  start it, hold it after the TSM tombstones, before Cache.DeleteRange
+//	del-end                  let it finish
+//	read <k>                 read every point of the series (real cursor)
+//	read-begin <r> <k>       phase 1 of a read (Cache.Values)
+//	read-end <r>             phase 2 (KeyCursor + cursor merge)
+//	lockorder <A>B,...>      the extracted acquisition pairs; answer: Go's own cycle check
+//	steporder                answer: the two statement orders found in the source
 package main
 
 import (
+	"context"
 	"fmt"
 	"os"
+	"path/filepath"
+	"reflect"
+	"runtime"
+	"sort"
+	"strconv"
+	"strings"
+	"sync"
+	"time"
+
+	"github.com/influxdata/influxdb/v2/models"
+	"github.com/influxdata/influxdb/v2/tsdb"
+	"github.com/influxdata/influxdb/v2/tsdb/cursors"
+	_ "github.com/influxdata/influxdb/v2/tsdb/engine"
+	"github.com/influxdata/influxdb/v2/tsdb/engine/tsm1"
+	_ "github.com/influxdata/influxdb/v2/tsdb/index"
+	"github.com/influxdata/influxql"
+	"verif/harness/h"
 )
+
+const nKeys = 4
+
+// repoDir is the root of the influxdb source tree this binary was built from
+// (/repo, or the scratch copy of a mutation test): taken from the file name the
+// compiler recorded for a function of package tsm1.
+func repoDir() string {
+	pc := reflect.ValueOf(tsm1.NewEngine).Pointer()
+	file, _ := runtime.FuncForPC(pc).FileLine(pc)
+	// …/tsdb/engine/tsm1/engine.go
+	return filepath.Dir(filepath.Dir(filepath.Dir(filepath.Dir(file))))
+}
+
+// ---------------------------------------------------------------- store
+
+type store struct {
+	root string
+	st   *tsdb.Store
+}
+
+type nullPlanner struct{}
+
+func (*nullPlanner) FindGenerations() tsm1.TsmGenerations { return nil }
+func (*nullPlanner) Plan(tsm1.TsmGenerations, time.Time) ([]tsm1.CompactionGroup, int64) {
+	return nil, 0
+}
+func (*nullPlanner) PlanLevel(tsm1.TsmGenerations, int) ([]tsm1.CompactionGroup, int64) {
+	return nil, 0
+}
+func (*nullPlanner) PlanOptimize(tsm1.TsmGenerations, time.Time) ([]tsm1.CompactionGroup, int64, int64) {
+	return nil, 0, 0
+}
+func (*nullPlanner) Release([]tsm1.CompactionGroup)             {}
+func (*nullPlanner) FullyCompacted() (bool, string)             { return true, "" }
+func (*nullPlanner) ForceFull()                                 {}
+func (*nullPlanner) SetFileStore(*tsm1.FileStore)               {}
+func (*nullPlanner) SetAggressiveCompactionPointsPerBlock(int)  {}
+func (*nullPlanner) GetAggressiveCompactionPointsPerBlock() int { return 0 }
+
+func openStore(background bool) (*store, error) {
+	base := ""
+	if os.Getenv("TMPDIR") == "" {
+		if fi, err := os.Stat("/dev/shm"); err == nil && fi.IsDir() {
+			base = "/dev/shm"
+		}
+	}
+	root, err := os.MkdirTemp(base, "verif-c39-")
+	if err != nil && base != "" {
+		root, err = os.MkdirTemp("", "verif-c39-")
+	}
+	if err != nil {
+		return nil, err
+	}
+	s := tsdb.NewStore(filepath.Join(root, "data"))
+	s.EngineOptions.Config.WALDir = filepath.Join(root, "wal")
+	s.EngineOptions.MonitorDisabled = true
+	s.EngineOptions.MetricsDisabled = true
+	if !background {
+		s.EngineOptions.CompactionDisabled = true
+		// a delete ends with enableLevelCompactions(true), which starts the background
+		// compaction loop even when compactions were never enabled: give it nothing to plan
+		s.EngineOptions.CompactionPlannerCreator = func(tsdb.Config) interface{} { return &nullPlanner{} }
+	}
+	if err := s.Open(context.Background()); err != nil {
+		os.RemoveAll(root)
+		return nil, err
+	}
+	if err := s.CreateShard(context.Background(), "db", "rp", 1, true); err != nil {
+		s.Close()
+		os.RemoveAll(root)
+		return nil, err
+	}
+	return &store{root: root, st: s}, nil
+}
+
+func (s *store) close() {
+	if s == nil {
+		return
+	}
+	done := make(chan struct{})
+	go func() {
+		defer close(done)
+		defer func() { recover() }()
+		s.st.Close()
+	}()
+	select {
+	case <-done:
+	case <-time.After(20 * time.Second):
+	}
+	os.RemoveAll(s.root)
+}
+
+func seriesTags(k int) models.Tags {
+	return models.NewTags(map[string]string{"k": strconv.Itoa(k)})
+}
+
+func seriesKey(k int) []byte {
+	return tsm1.SeriesFieldKeyBytes(string(models.MakeKey([]byte("m"), seriesTags(k))), "v")
+}
+
+func showPts(ts, vs []int64) string {
+	if len(ts) == 0 {
+		return "pts -"
+	}
+	var sb strings.Builder
+	sb.WriteString("pts ")
+	for i := range ts {
+		if i > 0 {
+			sb.WriteByte(',')
+		}
+		fmt.Fprintf(&sb, "%d=%d", ts[i], vs[i])
+	}
+	return sb.String()
+}
+
+func (s *store) engine() *tsm1.Engine {
+	sh := s.st.Shard(1)
+	if sh == nil {
+		return nil
+	}
+	e, err := sh.Engine()
+	if err != nil {
+		return nil
+	}
+	te, _ := e.(*tsm1.Engine)
+	return te
+}
+
+func (s *store) read(k int) string {
+	sh := s.st.Shard(1)
+	ctx := context.Background()
+	ci, err := sh.CreateCursorIterator(ctx)
+	if err != nil {
+		return "err"
+	}
+	cur, err := ci.Next(ctx, &cursors.CursorRequest{
+		Name: []byte("m"), Tags: seriesTags(k), Field: "v", Ascending: true,
+		StartTime: models.MinNanoTime, EndTime: models.MaxNanoTime,
+	})
+	if err != nil {
+		return "err"
+	}
+	if cur == nil {
+		return "pts -"
+	}
+	ic, ok := cur.(cursors.IntegerArrayCursor)
+	if !ok {
+		cur.Close()
+		return "err"
+	}
+	defer ic.Close()
+	var ts, vs []int64
+	for {
+		a := ic.Next()
+		if a.Len() == 0 {
+			break
+		}
+		ts = append(ts, a.Timestamps...)
+		vs = append(vs, a.Values...)
+	}
+	return showPts(ts, vs)
+}
+
+type sliceSeriesIterator struct {
+	ks []int
+	i  int
+}
+type seriesElem struct{ k int }
+
+func (e seriesElem) Name() []byte            { return []byte("m") }
+func (e seriesElem) Tags() models.Tags       { return seriesTags(e.k) }
+func (e seriesElem) Deleted() bool           { return false }
+func (e seriesElem) Expr() influxql.Expr     { return nil }
+func (it *sliceSeriesIterator) Close() error { return nil }
+func (it *sliceSeriesIterator) Next() (tsdb.SeriesElem, error) {
+	if it.i >= len(it.ks) {
+		return nil, nil
+	}
+	it.i++
+	return seriesElem{it.ks[it.i-1]}, nil
+}
+
+// ---------------------------------------------------------------- gates at verifPoint call sites
+
+type gate struct {
+	owner   *gates
+	armed   bool
+	hit     chan struct{}
+	release chan struct{}
+}
+
+type gates struct {
+	mu sync.Mutex
+	m  map[string]*gate
+}
+
+func (g *gates) hook(name string) {
+	g.mu.Lock()
+	gt := g.m[name]
+	if gt == nil || !gt.armed {
+		g.mu.Unlock()
+		return
+	}
+	gt.armed = false
+	g.mu.Unlock()
+	gt.hit <- struct{}{}
+	<-gt.release
+}
+
+func (g *gates) arm(name string) *gate {
+	g.mu.Lock()
+	defer g.mu.Unlock()
+	gt := &gate{armed: true, hit: make(chan struct{}, 1), release: make(chan struct{}, 1), owner: g}
+	g.m[name] = gt
+	return gt
+}
+
+func (gt *gate) disarm() {
+	gt.owner.mu.Lock()
+	gt.armed = false
+	gt.owner.mu.Unlock()
+}
+
+// background operation held at gates
+type bgop struct {
+	done chan struct{}
+	at   *gate // the gate it is paused at (nil: running or finished)
+}
+
+// waitPausedOrDone: true = paused at gt
+func (b *bgop) wait(gt *gate) (paused bool, ok bool) {
+	select {
+	case <-gt.hit:
+		b.at = gt
+		return true, true
+	case <-b.done:
+		gt.disarm() // finished without reaching the gate: it must not catch a later operation
+		b.at = nil
+		return false, true
+	case <-time.After(25 * time.Second):
+		gt.disarm()
+		return false, false
+	}
+}
+
+func (b *bgop) resume() {
+	if b.at != nil {
+		b.at.release <- struct{}{}
+		b.at = nil
+	}
+}
+
+func (b *bgop) finish() bool {
+	b.resume()
+	select {
+	case <-b.done:
+		return true
+	case <-time.After(25 * time.Second):
+		return false
+	}
+}
+
+// ---------------------------------------------------------------- the schedule runner
+
+type runner struct {
+	s       *store
+	err     error
+	g       *gates
+	phase   int // 0 idle, 1 begun, 2 replaced
+	snap    *bgop
+	comp    *bgop
+	del     *bgop
+	readers map[string]*tsm1.VerifC39Read
+}
+
+var hookMu sync.Mutex
+
+func newCase() h.CaseRunner {
+	s, err := openStore(false)
+	r := &runner{s: s, err: err, g: &gates{m: map[string]*gate{}}, readers: map[string]*tsm1.VerifC39Read{}}
+	hookMu.Lock()
+	tsm1.VerifHook = r.g.hook
+	hookMu.Unlock()
+	return r
+}
+
+func (r *runner) Close() {
+	// let everything that is held run to its end before closing the store
+	for _, b := range []*bgop{r.del, r.snap, r.comp} {
+		if b != nil {
+			b.finish()
+		}
+	}
+	hookMu.Lock()
+	tsm1.VerifHook = nil
+	hookMu.Unlock()
+	r.s.close()
+}
+
+func (r *runner) Op(t []string) string {
+	if len(t) == 0 {
+		return "bad-op"
+	}
+	switch t[0] {
+	case "lockorder":
+		if len(t) != 2 {
+			return "bad-op"
+		}
+		return "acyclic=" + h.B(goAcyclic(h.Split(t[1])))
+	case "steporder":
+		if len(t) != 1 {
+			return "bad-op"
+		}
+		return ExtractStepOrder(repoDir())
+	}
+	if r.err != nil {
+		return "harness-error"
+	}
+	ctx := context.Background()
+	sh := r.s.st.Shard(1)
+	key := func(s string) (int, bool) {
+		k, err := strconv.Atoi(s)
+		return k, err == nil && k >= 0 && k < nKeys
+	}
+	switch t[0] {
+	case "w":
+		if len(t) != 4 {
+			return "bad-op"
+		}
+		k, ok := key(t[1])
+		if !ok {
+			return "bad-op"
+		}
+		p, err := models.NewPoint("m", seriesTags(k), models.Fields{"v": h.Atoi(t[3])}, time.Unix(0, h.Atoi(t[2])))
+		if err != nil {
+			return "bad-op"
+		}
+		if err := r.s.st.WriteToShard(ctx, 1, []models.Point{p}); err != nil {
+			return "err"
+		}
+		return "ok"
+	case "snap-begin":
+		if len(t) != 1 {
+			return "bad-op"
+		}
+		if r.phase != 0 || r.del != nil {
+			return "busy"
+		}
+		e := r.s.engine()
+		gt := r.g.arm("snapshot.afterCacheSnapshot")
+		b := &bgop{done: make(chan struct{})}
+		go func() { defer close(b.done); e.WriteSnapshot() }()
+		paused, ok := b.wait(gt)
+		if !ok {
+			return "timeout"
+		}
+		r.snap = b
+		if paused {
+			r.phase = 1
+		} else {
+			r.snap = nil // finished at once (cannot happen: the gate is always reached)
+		}
+		return "ok"
+	case "snap-replace":
+		if len(t) != 1 {
+			return "bad-op"
+		}
+		if r.phase != 1 {
+			return "busy"
+		}
+		gt := r.g.arm("snapshot.afterReplace")
+		r.snap.resume()
+		paused, ok := r.snap.wait(gt)
+		if !ok {
+			return "timeout"
+		}
+		if paused {
+			r.phase = 2
+		} else {
+			r.phase = 0 // empty snapshot: ClearSnapshot and return
+			r.snap = nil
+		}
+		return "ok"
+	case "snap-clear":
+		if len(t) != 1 {
+			return "bad-op"
+		}
+		if r.phase != 2 {
+			return "busy"
+		}
+		if !r.snap.finish() {
+			return "timeout"
+		}
+		r.snap = nil
+		r.phase = 0
+		return "ok"
+	case "compact-begin":
+		if len(t) != 1 {
+			return "bad-op"
+		}
+		e := r.s.engine()
+		var group tsm1.CompactionGroup
+		for _, f := range e.FileStore.Files() {
+			group = append(group, f.Path())
+		}
+		if r.comp != nil || r.del != nil || len(group) == 0 {
+			return "busy"
+		}
+		gt := r.g.arm("compact.afterWriteFiles")
+		b := &bgop{done: make(chan struct{})}
+		go func() { defer close(b.done); e.VerifC39CompactFull(group) }()
+		paused, ok := b.wait(gt)
+		if !ok {
+			return "timeout"
+		}
+		if !paused {
+			return "err" // a full compaction of existing files always writes or errors before the gate
+		}
+		r.comp = b
+		return "ok"
+	case "compact-commit":
+		if len(t) != 1 {
+			return "bad-op"
+		}
+		if r.comp == nil {
+			return "busy"
+		}
+		if !r.comp.finish() {
+			return "timeout"
+		}
+		r.comp = nil
+		return "ok"
+	case "del", "del-begin":
+		if len(t) != 4 {
+			return "bad-op"
+		}
+		k, ok := key(t[1])
+		if !ok {
+			return "bad-op"
+		}
+		if r.phase != 0 || r.comp != nil || r.del != nil {
+			return "busy"
+		}
+		lo, hi := h.Atoi(t[2]), h.Atoi(t[3])
+		if t[0] == "del" {
+			if err := sh.DeleteSeriesRange(ctx, &sliceSeriesIterator{ks: []int{k}}, lo, hi); err != nil {
+				return "err"
+			}
+			return "ok"
+		}
+		gt := r.g.arm("delete.afterTombstones")
+		b := &bgop{done: make(chan struct{})}
+		go func() {
+			defer close(b.done)
+			sh.DeleteSeriesRange(ctx, &sliceSeriesIterator{ks: []int{k}}, lo, hi)
+		}()
+		paused, ok := b.wait(gt)
+		if !ok {
+			return "timeout"
+		}
+		if !paused {
+			return "done" // nothing overlapped: deleteSeriesRange returned before any step
+		}
+		r.del = b
+		return "ok"
+	case "del-end":
+		if len(t) != 1 {
+			return "bad-op"
+		}
+		if r.del == nil {
+			return "busy"
+		}
+		if !r.del.finish() {
+			return "timeout"
+		}
+		r.del = nil
+		return "ok"
+	case "read":
+		if len(t) != 2 {
+			return "bad-op"
+		}
+		k, ok := key(t[1])
+		if !ok {
+			return "bad-op"
+		}
+		return r.s.read(k)
+	case "read-begin":
+		if len(t) != 3 {
+			return "bad-op"
+		}
+		k, ok := key(t[2])
+		if _, dup := r.readers[t[1]]; !ok || dup {
+			return "bad-op"
+		}
+		if _, err := strconv.ParseUint(t[1], 10, 32); err != nil {
+			return "bad-op"
+		}
+		r.readers[t[1]] = r.s.engine().VerifC39ReadBegin(seriesKey(k))
+		return "ok"
+	case "read-end":
+		if len(t) != 2 {
+			return "bad-op"
+		}
+		rd, ok := r.readers[t[1]]
+		if !ok {
+			return "bad-op"
+		}
+		delete(r.readers, t[1])
+		ts, vs, err := rd.Finish(ctx)
+		if err != nil {
+			return "err"
+		}
+		return showPts(ts, vs)
+	}
+	return "bad-op"
+}
+
+// goAcyclic: Go's own answer (Kahn) for the T3 comparison with the verified Lean check
+func goAcyclic(edges []string) bool {
+	indeg := map[string]int{}
+	succ := map[string][]string{}
+	for _, e := range edges {
+		a, b, ok := strings.Cut(e, ">")
+		if !ok {
+			return false
+		}
+		if _, ok := indeg[a]; !ok {
+			indeg[a] = 0
+		}
+		indeg[b]++
+		succ[a] = append(succ[a], b)
+	}
+	var q []string
+	for n, d := range indeg {
+		if d == 0 {
+			q = append(q, n)
+		}
+	}
+	seen := 0
+	for len(q) > 0 {
+		n := q[0]
+		q = q[1:]
+		seen++
+		for _, m := range succ[n] {
+			indeg[m]--
+			if indeg[m] == 0 {
+				q = append(q, m)
+			}
+		}
+	}
+	return seen == len(indeg)
+}
+
+// ---------------------------------------------------------------- generator
+
+type genState struct {
+	r      *h.Rand
+	ops    []string
+	phase  int
+	comp   bool
+	del    bool
+	nfiles int
+	// a point was written twice into the hot cache of key k since the last snap-begin:
+	// no delete of k until then (F4's size residue would make an "empty" snapshot
+	// take the non-empty path — C09's finding, kept out of these schedules)
+	dup      [nKeys]bool
+	hot      map[[2]int64]bool
+	hotCount int
+	readers  []int
+	nextR    int
+}
+
+func (g *genState) emit(s string) { g.ops = append(g.ops, s) }
+
+func (g *genState) write() {
+	k := int64(g.r.Intn(nKeys))
+	if g.r.Chance(0.6) {
+		k = int64(g.r.Intn(2))
+	}
+	t := g.r.Range(0, 9)
+	if g.hot[[2]int64{k, t}] {
+		g.dup[k] = true
+	}
+	g.hot[[2]int64{k, t}] = true
+	g.hotCount++
+	g.emit(fmt.Sprintf("w %d %d %d", k, t, g.r.Range(0, 999)))
+}
+
+func (g *genState) step() {
+	x := g.r.Intn(100)
+	switch {
+	case x < 30:
+		g.write()
+	case x < 45: // advance / start the snapshot
+		switch g.phase {
+		case 0:
+			if !g.del {
+				g.emit("snap-begin")
+				g.phase = 1
+				nonEmpty := g.hotCount > 0
+				g.hot = map[[2]int64]bool{}
+				g.hotCount = 0
+				g.dup = [nKeys]bool{}
+				if !nonEmpty {
+					g.phase = 3 // empty snapshot: replace finishes it
+				}
+			} else {
+				g.emit("snap-begin") // refused: busy
+			}
+		case 1:
+			g.emit("snap-replace")
+			g.phase = 2
+			g.nfiles++
+		case 3:
+			g.emit("snap-replace")
+			g.phase = 0
+		case 2:
+			g.emit("snap-clear")
+			g.phase = 0
+		}
+	case x < 55:
+		if !g.comp {
+			g.emit("compact-begin")
+			if !g.del && g.nfiles > 0 {
+				g.comp = true
+			}
+		} else {
+			g.emit("compact-commit")
+			g.comp = false
+		}
+	case x < 65:
+		k := g.r.Intn(2)
+		lo := g.r.Range(0, 9)
+		hi := lo + g.r.Range(0, 4)
+		if g.dup[k] {
+			g.write()
+			return
+		}
+		free := (g.phase == 0) && !g.comp && !g.del
+		if g.del && g.r.Chance(0.7) {
+			g.emit("del-end")
+			g.del = false
+		} else if g.r.Bool() {
+			g.emit(fmt.Sprintf("del %d %d %d", k, lo, hi))
+		} else {
+			g.emit(fmt.Sprintf("del-begin %d %d %d", k, lo, hi))
+			if free {
+				g.del = true
+			}
+		}
+	case x < 85:
+		g.emit(fmt.Sprintf("read %d", g.r.Intn(2)))
+	case x < 93:
+		id := g.nextR
+		g.nextR++
+		g.readers = append(g.readers, id)
+		g.emit(fmt.Sprintf("read-begin %d %d", id, g.r.Intn(2)))
+	default:
+		if len(g.readers) > 0 {
+			i := g.r.Intn(len(g.readers))
+			g.emit(fmt.Sprintf("read-end %d", g.readers[i]))
+			g.readers = append(g.readers[:i], g.readers[i+1:]...)
+		} else {
+			g.emit(fmt.Sprintf("read %d", g.r.Intn(2)))
+		}
+	}
+}
+
+func genSchedule(r *h.Rand) []string {
+	g := &genState{r: r, hot: map[[2]int64]bool{}}
+	n := 15 + r.Intn(30)
+	for i := 0; i < n; i++ {
+		g.step()
+	}
+	// wind down: finish everything in flight, then read all keys
+	for _, id := range g.readers {
+		g.emit(fmt.Sprintf("read-end %d", id))
+	}
+	if g.del {
+		g.emit("del-end")
+	}
+	switch g.phase {
+	case 1:
+		g.emit("snap-replace")
+		g.emit("snap-clear")
+	case 3:
+		g.emit("snap-replace")
+	case 2:
+		g.emit("snap-clear")
+	}
+	if g.comp {
+		g.emit("compact-commit")
+	}
+	for k := 0; k < nKeys; k++ {
+		g.emit(fmt.Sprintf("read %d", k))
+	}
+	return g.ops
+}
+
+func gen(r *h.Rand, tier string, emit func([]string)) {
+	// the lock-order / step-order case, from the current source
+	edges, _, _, _, err := ExtractLockOrder(repoDir())
+	if err != nil {
+		emit([]string{"lockorder !extract-failed", "steporder"})
+	} else {
+		sort.Strings(edges)
+		emit([]string{"lockorder " + h.Join(edges), "steporder"})
+	}
+	n := 150
+	if tier == "thorough" {
+		n = 2500
+	}
+	for i := 0; i < n; i++ {
+		emit(genSchedule(r))
+	}
+	// the scenarios of the theorems, literally
+	emit([]string{"w 0 1 7", "read-begin 0 0", "snap-begin", "snap-replace", "snap-clear", "read-end 0", "read 0"})
+	emit([]string{"w 0 1 7", "snap-begin", "read 0", "w 0 1 8", "snap-replace", "read 0", "snap-clear", "read 0"})
+	emit([]string{"w 0 1 7", "snap-begin", "snap-replace", "snap-clear", "w 0 1 8", "snap-begin", "snap-replace", "compact-begin", "read 0", "snap-clear", "w 0 2 9", "compact-commit", "read 0"})
+	emit([]string{"w 0 1 7", "w 0 2 8", "snap-begin", "snap-replace", "snap-clear", "w 0 2 9", "del-begin 0 2 2", "read 0", "w 0 2 5", "read 0", "del-end", "read 0"})
+	// malformed
+	emit([]string{"w 9 1 1", "read 7", "read-end 99", "frob", "del 0 1", "snap-clear", "compact-commit", "del-end"})
+}
 
 func main() {
 	if len(os.Args) > 1 && os.Args[1] == "lockorder" {
-		repo := "/repo"
+		repo := repoDir()
 		if len(os.Args) > 2 {
 			repo = os.Args[2]
 		}
@@ -21,6 +784,8 @@ func main() {
 		}
 		fmt.Println("self-nesting:", selfs)
 		fmt.Println("unresolved:", unres)
+		fmt.Println("steporder:", ExtractStepOrder(repo))
 		return
 	}
+	h.Main(h.Harness{Gen: gen, NewCase: newCase, OpTimeout: 90 * time.Second})
 }
